@@ -31,7 +31,8 @@ def _fmt_modules(fmt):
     import iodata.prepare as P
     import iodata.utils as U
     mods = [api, A, I, U, O, B, C, P, OV]
-    names = {"poscar": ["poscar", "chgcar"], "wfx": ["wfx", "wfn"], "molekel": ["molekel", "molden"]}.get(fmt, [fmt])
+    names = {"poscar": ["poscar", "chgcar"], "wfx": ["wfx", "wfn"], "molekel": ["molekel", "molden"],
+             "json": ["json_qcschema"]}.get(fmt, [fmt])
     for n in names:
         mods.append(importlib.import_module(f"iodata.formats.{n}"))
     return mods
@@ -395,9 +396,94 @@ def build_fchk(ctx, natom=2, variant="wf-own"):
     return kw, {}, {}, exp, tol
 
 
-BUILDERS = dict(fchk=build_fchk, xyz=build_xyz, pdb=build_pdb, mol2=build_mol2, sdf=build_sdf, poscar=build_poscar, cube=build_cube,
+def build_wfmt(fmt):
+    """WFN / WFX / Molden / Molekel: the attributes these formats store next to the wavefunction."""
+    def build(ctx, natom=2, variant="full"):
+        from harness import wfobj
+        heavy = fmt in ("molden", "molekel")
+        conv = {"molden": "molden", "molekel": "molden", "wfn": "wfn", "wfx": "wfn"}[fmt]
+        shells = [(0, [0], ["c"], 2), (1, [1], ["c"], 1)][:max(1, natom)]
+        atoms = [(8, None), (1, None)][:natom]
+        uhf = variant == "uhf"
+        kw = wfobj.make_wf(ctx, atoms, shells, conv=conv, mo_kind="unrestricted" if uhf else "restricted", norb=2,
+                           occ="uhf-odd" if uhf else "closed", coords_sym=not heavy, contraction_sym=False, sym=not heavy)
+        exp = {"atnums": kw["atnums"], "atcoords": kw["atcoords"], "@wavefunction": True}
+        tol = dict(atcoords=2e-6 if fmt == "molekel" else 1e-7)
+        full = variant in ("full", "uhf", "ecp")
+        if fmt in ("wfn", "wfx", "molden") and full:
+            kw["title"] = f"{fmt} title"
+            exp["title"] = kw["title"]
+        if fmt in ("wfn", "wfx"):
+            kw["extra"] = {}
+            if full:
+                kw["energy"] = ctx.real("etot", lo=-1e4, hi=-1e-3, default=-76.0)
+                kw["extra"]["virial_ratio"] = ctx.real("virial", lo=1.0, hi=3.0, default=2.003)
+                exp["extra.virial_ratio"] = kw["extra"]["virial_ratio"]
+            exp["energy"] = kw.get("energy") if full else "@absent-or-nan"
+            tol.update({"energy": ("rel", 1e-7), "extra.virial_ratio": ("rel", 1e-7)})
+        if fmt == "wfx" and full:
+            kw["atgradient"] = ctx.real_array("grad", (natom, 3), lo=-9, hi=9)
+            kw["lot"] = "B3LYP"
+            kw["extra"].update(keywords="GTO", num_perturbations=0, num_core_electrons=2,
+                               nuc_viral=ctx.real("nucvir", lo=-9, hi=9, default=0.25),
+                               full_virial_ratio=ctx.real("fullvir", lo=1.0, hi=3.0, default=2.01))
+            exp["atgradient"] = kw["atgradient"]
+            exp["lot"] = kw["lot"]
+            for k in ("keywords", "num_perturbations", "num_core_electrons", "nuc_viral", "full_virial_ratio"):
+                exp[f"extra.{k}"] = kw["extra"][k]
+        if fmt in ("wfx", "molden"):
+            exp["atcorenums"] = kw["atnums"].astype(float)
+            if variant == "ecp":
+                # effective core charges; Molden prints them without decimals
+                kw["atcorenums"] = ctx.real_array("zcore", (natom,), lo=0.0, hi=20.0) if fmt == "wfx" else np.array([6.0, 1.0][:natom])
+                exp["atcorenums"] = kw["atcorenums"]
+                tol["atcorenums"] = 1e-7
+        if fmt == "molekel":
+            if full:
+                kw["atcharges"] = {"mulliken": ctx.real_array("q", (natom,), lo=-9, hi=9)}
+                exp["atcharges.mulliken"] = kw["atcharges"]["mulliken"]
+                tol["atcharges.mulliken"] = 1e-6
+            else:
+                exp["@atcharges-empty"] = True
+        return kw, {}, {}, exp, tol
+    return build
+
+
+def build_json(ctx, natom=2, variant="full"):
+    """QCSchema molecule: geometry, charge, multiplicity, masses, connectivity, ghost atoms, passthrough keys."""
+    atnums = np.array([8, 1, 6, 17][:natom])
+    coords = ctx.real_array("x", (natom, 3), lo=-50, hi=50)
+    kw = dict(atnums=atnums, atcoords=coords, extra={"schema_name": "qcschema_molecule", "molecule": {}})
+    exp = {"atnums": atnums, "atcoords": coords}
+    # charge and spinpol are documented as required
+    kw["charge"] = ctx.real("charge", lo=-5, hi=5, default=1.0)
+    kw["spinpol"] = 2
+    exp["charge"], exp["spinpol"] = kw["charge"], kw["spinpol"]
+    if variant == "full":
+        kw["title"] = "a qcschema molecule"
+        kw["atmasses"] = ctx.real_array("mass", (natom,), lo=1.0, hi=5e5)
+        if natom >= 2:
+            kw["bonds"] = np.array([[0, 1, 2]] + ([[1, 2, 1]] if natom >= 3 else []))
+            kw["atcorenums"] = np.array([float(z) for z in atnums])
+            kw["atcorenums"][1] = 0.0              # a ghost atom
+            exp["bonds"] = kw["bonds"]
+            exp["atcorenums"] = kw["atcorenums"]
+        kw["extra"]["molecule"] = {"comment": "generated", "fix_com": True, "fix_orientation": False, "atom_labels": ["a", "b", "c", "d"][:natom],
+                                   "fragments": {"indices": [np.array([0]), np.array(list(range(1, natom)))][:2 if natom > 1 else 1],
+                                                 "charges": np.array([1.0, 0.0][:2 if natom > 1 else 1]),
+                                                 "multiplicities": np.array([3, 1][:2 if natom > 1 else 1])}}
+        for k in ("title", "atmasses"):
+            exp[k] = kw[k]
+        for k in ("comment", "fix_com", "fix_orientation"):
+            exp[f"extra.molecule.{k}"] = kw["extra"]["molecule"][k]
+        exp["extra.molecule.fragments.charges"] = kw["extra"]["molecule"]["fragments"]["charges"]
+        exp["extra.molecule.fragments.multiplicities"] = kw["extra"]["molecule"]["fragments"]["multiplicities"]
+    return kw, {"fmt": "json_qcschema"}, {"fmt": "json_qcschema"}, exp, {}
+
+
+BUILDERS = dict(json=build_json, wfn=build_wfmt("wfn"), wfx=build_wfmt("wfx"), molden=build_wfmt("molden"), molekel=build_wfmt("molekel"), fchk=build_fchk, xyz=build_xyz, pdb=build_pdb, mol2=build_mol2, sdf=build_sdf, poscar=build_poscar, cube=build_cube,
                 fcidump=build_fcidump)
-FILENAMES = dict(fchk="mol.fchk", xyz="mol.xyz", pdb="mol.pdb", mol2="mol.mol2", sdf="mol.sdf", poscar="POSCAR", cube="mol.cube",
+FILENAMES = dict(json="mol.json", wfn="mol.wfn", wfx="mol.wfx", molden="mol.molden", molekel="mol.mkl", fchk="mol.fchk", xyz="mol.xyz", pdb="mol.pdb", mol2="mol.mol2", sdf="mol.sdf", poscar="POSCAR", cube="mol.cube",
                  fcidump="FCIDUMP")
 
 
@@ -528,13 +614,20 @@ def snap_equal(ctx, a, b, path=""):
     return out
 
 
-def _compare_wavefunction(ctx, data, back, cls):
+def _compare_wavefunction(ctx, data, back, cls, fmt=None):
     """Orbitals as functions of space and every density matrix as a bilinear form (conventions may differ)."""
     from harness import c01
     ctx.oblige("reload:orbitals-present", back.mo is not None and back.obasis is not None, cls=cls)
     if back.mo is None or back.obasis is None:
         return
-    for label, f, where in c01.same_orbitals(ctx, c01.semantic(ctx, data), c01.semantic(ctx, back)):
+    src, dst = c01.semantic(ctx, data), c01.semantic(ctx, back)
+    if fmt == "wfn" and data.mo.kind == "unrestricted":
+        # documented heuristic: a WFN file without the Multiwfn spin section cannot say which orbitals are alpha and
+        # which beta when no occupation exceeds 1: the orbital list is compared without spin labels (as in C01)
+        def flat(sem, mo):
+            return {"a": sem["a"] + sem["b"] if mo.kind == "unrestricted" else sem["a"], "b": []}
+        src, dst = flat(src, data.mo), flat(dst, back.mo)
+    for label, f, where in c01.same_orbitals(ctx, src, dst):
         ctx.oblige("reload:" + label, f, cls=cls, detail=where)
     for key, dm in data.one_rdms.items():
         got = back.one_rdms.get(key)
@@ -545,6 +638,18 @@ def _compare_wavefunction(ctx, data, back, cls):
 
 
 def h_roundtrip(ctx, fmt="xyz", natom=2, variant="default", prop="C02", policy="fit", twin=False):
+    if fmt not in ("molden", "molekel"):
+        return _h_roundtrip(ctx, fmt, natom, variant, prop, policy, twin)
+    import iodata.formats.molden as _molden
+    gate = _molden._is_normalized_properly
+    _molden._is_normalized_properly = lambda *a, **k: True
+    try:
+        return _h_roundtrip(ctx, fmt, natom, variant, prop, policy, twin)
+    finally:
+        _molden._is_normalized_properly = gate
+
+
+def _h_roundtrip(ctx, fmt, natom, variant, prop, policy, twin):
     import iodata.api as api
     from iodata.iodata import IOData
     from iodata.utils import DumpError, LoadError, PrepareDumpError
@@ -581,6 +686,8 @@ def h_roundtrip(ctx, fmt="xyz", natom=2, variant="default", prop="C02", policy="
         if err is not None:
             return
         text1 = ctx.read_text(path)
+        # Molden/Molekel: the vendor-detection cascade is the subject of C05; the norm gate is opened (in both modes) so
+        # that arbitrary - not necessarily orthonormal - coefficients can be read back
         with warnings.catch_warnings(record=True):
             warnings.simplefilter("always")
             try:
@@ -595,7 +702,16 @@ def h_roundtrip(ctx, fmt="xyz", natom=2, variant="default", prop="C02", policy="
         if prop == "C02":
             for attr, want in exp.items():
                 if attr == "@wavefunction":
-                    _compare_wavefunction(ctx, data, back, cls)
+                    _compare_wavefunction(ctx, data, back, cls, fmt)
+                    continue
+                if isinstance(want, str) and want == "@absent-or-nan":
+                    # WFN/WFX have a mandatory energy field: the writer documents NaN as "not available"
+                    got = get_attr(back, attr)
+                    ctx.oblige(f"reload:{attr}", got is None or (not isinstance(got, Sym) and got != got), cls=cls, detail=repr(got))
+                    continue
+                if attr == "@atcharges-empty":
+                    ctx.oblige("reload:absent-atcharges-stay-an-empty-dictionary", back.atcharges == {}, cls=cls,
+                               detail=repr(back.atcharges))
                     continue
                 if twin and attr == "atcoords":
                     want = want * 1.0000001
@@ -622,11 +738,23 @@ def h_roundtrip(ctx, fmt="xyz", natom=2, variant="default", prop="C02", policy="
         ctx.oblige("further-cycles-succeed", cerr is None, cls=cls, detail=str(cerr))
         if cerr is not None:
             return
+        # reading the default core charges is not a change of the object (the getter caches them, C11)
+        back2.atcorenums, back3.atcorenums
         s2, s3 = snapshot(ctx, back2), snapshot(ctx, back3)
+        t2, t3 = ctx.read_text(path2), ctx.read_text(path3)
+        if fmt == "json":
+            # the documented exception: the provenance trail grows by design
+            import json as _json
+            from harness import c15
+            from symx import symjson
+            s2, s3 = c15._strip_snap(s2), c15._strip_snap(s3)
+            d2, d3 = (c15._drop_provenance(symjson.loads(t) if ctx.mode == "sym" else _json.loads(t)) for t in (t2, t3))
+            for where, f in _value_equal(ctx, _snap(d2), _snap(d3), "file"):
+                ctx.oblige("cycle3-file-equals-cycle2-file", f, cls=f"{cls}:{where[:60]}")
+        else:
+            ctx.oblige("cycle3-file-equals-cycle2-file", _text_equal(ctx, t2, t3), cls=cls)
         for where, f in _value_equal(ctx, s2, s3, "obj"):
             ctx.oblige("cycle3-object-equals-cycle2-object", f, cls=f"{cls}:{where}")
-        t2, t3 = ctx.read_text(path2), ctx.read_text(path3)
-        ctx.oblige("cycle3-file-equals-cycle2-file", _text_equal(ctx, t2, t3), cls=cls)
 
 
 def _value_equal(ctx, a, b, path):
@@ -660,7 +788,8 @@ def _value_equal(ctx, a, b, path):
         if isinstance(x, Sym) or isinstance(y, Sym):
             out.append((path, ctx.eq(x, y)))
         else:
-            out.append((path, x == y if not (isinstance(x, float) and isinstance(y, float)) else x == y))
+            both_nan = isinstance(x, float) and isinstance(y, float) and x != x and y != y      # bit-identical NaN
+            out.append((path, both_nan or x == y))
     return out
 
 
